@@ -1,6 +1,7 @@
 package checks
 
 import (
+	"bytes"
 	"encoding/json"
 	"fmt"
 	"sort"
@@ -58,6 +59,13 @@ type c03doc struct {
 
 // c03identities returns the first failing identity ("" when all hold).
 func c03identities(d *c03doc, c int) (name, detail string, n int) {
+	return c03identitiesOpt(d, c, false)
+}
+
+// totalsOnly skips the per-line identities (used on the result of
+// RemoveIncludedTaxes, whose line discounts and charges are derived amounts kept
+// with more decimals than the currency: as inputs they are outside the stated domain).
+func c03identitiesOpt(d *c03doc, c int, totalsOnly bool) (name, detail string, n int) {
 	eq := func(a, b dec.D) bool { return a.Cmp(b) == 0 }
 	decs := func(s string) int {
 		x, ok := dec.Parse(s)
@@ -79,6 +87,10 @@ func c03identities(d *c03doc, c int) (name, detail string, n int) {
 			t = t.Add(mustD(x.Amount))
 		}
 		n++
+		if totalsOnly {
+			sumLines = sumLines.Add(mustD(*l.Total))
+			continue
+		}
 		if !eq(t, mustD(*l.Total)) {
 			return "line-total", fmt.Sprintf("lines[%d]: sum %s − discounts + charges = %s but total is %s", i, *l.Sum, t, *l.Total), n
 		}
@@ -305,6 +317,28 @@ func runC03(c *Ctx) {
 			c.R.Fail(cl, fmt.Sprintf("%s: %s", origin, det), map[string]any{"origin": origin, "input": json.RawMessage(in), "output": json.RawMessage(out)})
 		}
 		recheck(origin, out, func(n int) int { return int(ev.HashBytes(in) % uint64(n)) })
+		// the other entry point that produces totals: removing the included taxes of
+		// an invoice; its result presents figures too, and they must re-add as well
+		if bytes.Contains(out, []byte(`"prices_include"`)) && !strings.HasPrefix(origin, "recalculated") {
+			var out2 []byte
+			var rerr error
+			if p, _ := Safely(func() {
+				inv, _, e := calcInvoice(in)
+				if rerr = e; e == nil {
+					if rerr = inv.RemoveIncludedTaxes(); rerr == nil {
+						out2, rerr = json.Marshal(inv)
+					}
+				}
+			}); p == nil && rerr == nil {
+				d2 := new(c03doc)
+				if json.Unmarshal(out2, d2) == nil {
+					c.R.Count("identities_after_RemoveIncludedTaxes", 1)
+					if name, det, _ := c03identitiesOpt(d2, cd, true); name != "" {
+						c.R.Fail("identity-after-remove-included:"+name, fmt.Sprintf("%s, after RemoveIncludedTaxes: %s", origin, det), map[string]any{"origin": origin, "input": json.RawMessage(in), "output": json.RawMessage(out2)})
+					}
+				}
+			}
+		}
 		return true, len(d.Lines) > 1 || len(d.Discounts) > 0 || len(d.Charges) > 0 || (d.Totals != nil && d.Totals.Taxes != nil)
 	}
 	// corpus with the rule forced to currency
